@@ -18,5 +18,10 @@ func main() {
 		checks.C19FreeRun(n)
 		return
 	}
+	if len(os.Args) >= 4 && os.Args[1] == "c19-solo" {
+		// one session of one scenario served alone in this fresh process; transcript as JSON on stdout
+		n, _ := strconv.Atoi(os.Args[3])
+		os.Exit(checks.C19SoloOne(os.Args[2], n))
+	}
 	mc.Main(checks.All())
 }
